@@ -829,6 +829,15 @@ func runC20(a vh.Args, o *vh.Oracle, r *vh.Result) error {
 				return c20Content(a, r, &hc)
 			}
 			return c20Chop(a, r, &hc)
+		case "leftover", "twoformat-concurrent":
+			var tc c20TmpCase
+			if err := readJSON(a.Replay, &tc); err != nil {
+				return err
+			}
+			if c.Kind == "leftover" {
+				return c20Leftover(a, r, &tc)
+			}
+			return c20TwoFormatConcurrent(a, r, &tc)
 		case "serve":
 			var sc c20ServeCase
 			if err := readJSON(a.Replay, &sc); err != nil {
@@ -917,6 +926,9 @@ func runC20(a vh.Args, o *vh.Oracle, r *vh.Result) error {
 		return err
 	}
 	if err := c20ServeAll(a, o, r, rng); err != nil {
+		return err
+	}
+	if err := c20TmpAll(a, r, rng); err != nil {
 		return err
 	}
 	c20Fixtures(a, r)
